@@ -385,14 +385,22 @@ fn rule_perform_math_ops(
     available_in: &AvailableValueMap<Register>,
 ) {
     if let Some(reg) = node.writes_to() {
+        // (the zero register is never in the map; it always holds the constant 0)
+        let value_of = |reg: &Register| {
+            if reg.is_const_zero() {
+                Some(AvailableValue::Constant(0))
+            } else {
+                available_in.get(reg).cloned()
+            }
+        };
         let lhs = match node {
-            ParserNode::Arith(expr) => available_in.get(expr.rs1.get()).cloned(),
-            ParserNode::IArith(expr) => available_in.get(expr.rs1.get()).cloned(),
+            ParserNode::Arith(expr) => value_of(expr.rs1.get()),
+            ParserNode::IArith(expr) => value_of(expr.rs1.get()),
             _ => None,
         };
 
         let rhs = match node {
-            ParserNode::Arith(expr) => available_in.get(expr.rs2.get()).cloned(),
+            ParserNode::Arith(expr) => value_of(expr.rs2.get()),
             ParserNode::IArith(expr) => Some(AvailableValue::Constant(expr.imm.get().value())),
             _ => None,
         };
